@@ -28,6 +28,7 @@ EXPLANATION = (
     "code and timing are not decided."
     ' (R4, shared with C07.R1) no fragment of an earlier transmission survives into a retransmission, so an exception frame is validated on its own.'
     ' R1 also checks the converse: every validator path that established function code != cmd ends in the RequestRejectedException raise.'
+    ' R1 evaluates the message expression of every rejection raise site for all 256 code bytes (any representation of the reason table).'
 )
 
 
